@@ -460,27 +460,36 @@ def orientCycle (nodes : List V3) (neg : Bool) (cyc : List Nat) : List Nat :=
   let ccw := decide (0 < shoelace (cyc.map (fun n => v3xy (nodeAt nodes n))))
   if xor ccw neg then cyc else reverseCycle cyc
 
-/-- all faces of the extruded 2-d grid with their cyclic node order: vertical faces layer by layer,
-    then the horizontal faces of every node layer -/
-def facesOrdered (b : Base) (z : List Rat) : List (List Nat) :=
-  let layers := z.length - 1
-  let nn := b.nodes.length
-  let neg := z.all (fun v => decide (v ≤ 0))
-  let flips := (List.range b.fn.length).map (fun f =>
+/-- per base face: its two nodes and the flip decision of `_extrude_2d` -/
+def faceFlips (b : Base) (neg : Bool) : List (Nat × Nat × Bool) :=
+  (List.range b.fn.length).map (fun f =>
     match b.fn.getD f [], firstCellOf f b.cf 0 with
     | [a, bb], some (c, sgn) =>
       (a, bb, flipOf sgn (ccwPolyline (v3xy (nodeAt b.nodes a)) (v3xy (nodeAt b.nodes bb))
         (cellInterior b.nodes (b.cn.getD c []))) neg)
     | _, _ => (0, 0, false))
-  let vert := ((List.range layers).map (fun k =>
-    flips.map (fun abf => verticalFaceOrdered nn abf.1 abf.2.1 abf.2.2 k))).flatten
-  let cycles := b.cf.map (fun fs =>
+
+/-- per base cell: its oriented node cycle -/
+def cellCycles (b : Base) (neg : Bool) : List (List Nat) :=
+  b.cf.map (fun fs =>
     orientCycle b.nodes neg (cellCycle (fs.map (fun fsg =>
       match b.fn.getD fsg.1 [] with
       | [a, bb] => (a, bb)
       | _ => (0, 0)))))
-  let hor := ((List.range (layers + 1)).map (fun j => cycles.map (fun cyc => cyc.map (· + j * nn)))).flatten
-  vert ++ hor
+
+def verticalOrdered (b : Base) (neg : Bool) (layers : Nat) : List (List Nat) :=
+  ((List.range layers).map (fun k =>
+    (faceFlips b neg).map (fun abf => verticalFaceOrdered b.nodes.length abf.1 abf.2.1 abf.2.2 k))).flatten
+
+def horizontalOrdered (b : Base) (neg : Bool) (nodeLayers : Nat) : List (List Nat) :=
+  ((List.range nodeLayers).map (fun j =>
+    (cellCycles b neg).map (fun cyc => cyc.map (· + j * b.nodes.length)))).flatten
+
+/-- all faces of the extruded 2-d grid with their cyclic node order: vertical faces layer by layer,
+    then the horizontal faces of every node layer (`neg` = downward extrusion, `np.all(z <= 0)`) -/
+def facesOrdered (b : Base) (z : List Rat) : List (List Nat) :=
+  let neg := z.all (fun v => decide (v ≤ 0))
+  verticalOrdered b neg (z.length - 1) ++ horizontalOrdered b neg (z.length - 1 + 1)
 
 /-- coordinates of a vertical face over the base edge `(A, B)` between `z0` and `z1`, in the node
     order of `verticalFaceOrdered` -/
